@@ -246,7 +246,13 @@ func (st *StateTransition) TransitionDb() (*core.ExecutionResult, error) {
 
 	// Set up the initial access list.
 	if rules.IsBerlin {
-		activePrecompiles := append(corevm.ActivePrecompiles(rules), st.evm.GetCustomPrecompiledContractsAddress()...)
+		activePrecompiles := corevm.ActivePrecompiles(rules)
+		for _, customPrecompiledContractAddress := range st.evm.GetCustomPrecompiledContractsAddress() {
+			// the list is padded with zero addresses: warming the zero address up would make it cheaper than on Ethereum
+			if customPrecompiledContractAddress != (common.Address{}) {
+				activePrecompiles = append(activePrecompiles, customPrecompiledContractAddress)
+			}
+		}
 		st.state.PrepareAccessList(msg.From(), msg.To(), activePrecompiles, msg.AccessList())
 	}
 	var (
